@@ -3,6 +3,7 @@ package main
 import (
 	"encoding/json"
 	"fmt"
+	"os"
 	"strings"
 
 	"github.com/Trendyol/go-dcp/helpers"
@@ -24,6 +25,7 @@ type AckSeqParams struct {
 type RangeParams struct {
 	Commit bool `json:"commit"`
 	Still  bool `json:"still"` // the rebalance keeps the vBucket in range (control)
+	File   bool `json:"file"`  // file metadata backend: its Load returns every vBucket in the file, not only the requested ones
 }
 
 type RaceParams struct {
@@ -70,6 +72,9 @@ func init() {
 				{Scenario: "c04_range", Params: mustJSON(RangeParams{Commit: true}), Bound: 0},
 				{Scenario: "c04_range", Params: mustJSON(RangeParams{Commit: false}), Bound: 0},
 				{Scenario: "c04_range", Params: mustJSON(RangeParams{Commit: true, Still: true}), Bound: 0},
+				{Scenario: "c04_range", Params: mustJSON(RangeParams{Commit: true, File: true}), Bound: 0, Note: "file metadata backend: Load returns every vBucket of the file, so the offset table of the shrunk session also has entries for vBuckets that moved away"},
+				{Scenario: "c04_range", Params: mustJSON(RangeParams{Commit: false, File: true}), Bound: 0},
+				{Scenario: "c04_range", Params: mustJSON(RangeParams{Commit: true, Still: true, File: true}), Bound: 0},
 				{Scenario: "c04_race", Params: mustJSON(RaceParams{WithSaver: false}), Bound: b, Shards: 4},
 				{Scenario: "c04_race", Params: mustJSON(RaceParams{WithSaver: true}), Bound: b, Shards: 8},
 				{Scenario: "c16_hist", Params: mustJSON(MetricParams{Depth: 3}), Bound: 0, Shards: 8, Note: "the position exposed through the metrics equals the tracked one after every step, also in the sessions after a rebalance"},
@@ -174,6 +179,13 @@ func publishInfo(e *Env, n, t int) {
 func rangeMain(p RangeParams) {
 	resetGlobals()
 	o := EnvOpts{Vbs: 2, CheckpointType: "manual", MembershipType: "dynamic", WrapMeta: true}
+	if p.File {
+		f, _ := os.CreateTemp("", "ckpt*.json")
+		o.Metadata, o.FileName = "file", f.Name()
+		f.Close()
+		os.Remove(o.FileName)
+		defer os.Remove(o.FileName)
+	}
 	c := NewCluster(&o)
 	c.Append(0, marker(1, 2), mut(1, "a1"), mut(2, "a2"))
 	c.Append(1, marker(1, 2), mut(1, "b1"), mut(2, "b2"))
@@ -214,6 +226,9 @@ func rangeMain(p RangeParams) {
 	}
 	trackBefore := len(e.Cons.TrackSeq[1])
 	writesBefore := len(c.Writes)
+	// (a backend whose Load returns more than it was asked for leaves an entry for vb1 in the offset table; the
+	// property is about acknowledgements not ALTERING or creating anything)
+	entryBefore, hadEntry := e.Tracked(1)
 	// late acknowledgement of an event delivered before the rebalance
 	find(1, 2).Ctx.Ack()
 	if p.Commit {
@@ -225,8 +240,8 @@ func rangeMain(p RangeParams) {
 			vrt.Failf("vb1 still owned: late acknowledgement not accepted (tracked %d)", got)
 		}
 	} else {
-		if _, ok := offs.Load(1); ok {
-			vrt.Failf("acknowledgement for vb1 (outside the assigned range 0..0) created an offset entry")
+		if cur, ok := offs.Load(1); ok && (!hadEntry || cur.SeqNo != entryBefore) {
+			vrt.Failf("acknowledgement for vb1 (outside the assigned range 0..0) created or altered an offset entry (before: %d present=%v, after: %d)", entryBefore, hadEntry, cur.SeqNo)
 		}
 		if d, ok := dirty.Load(1); ok && d {
 			vrt.Failf("acknowledgement for vb1 (outside the assigned range) marked it dirty")
